@@ -5,7 +5,7 @@
 set -u
 C=$1; P=$2; T=${3:-quick}; N="rev-$C-$P"
 D=$(/verif/tools/scratch_repo.sh new "$N") || exit 2
-( cd "$D" && git show "$C" | git apply -R ) || { echo "reverse patch does not apply"; /verif/tools/scratch_repo.sh rm "$N"; exit 2; }
+( cd "$D" && { git show "$C" | git apply -R 2>/dev/null || git show "$C" | git apply -R --3way; } ) || { echo "reverse patch does not apply"; /verif/tools/scratch_repo.sh rm "$N"; exit 2; }
 cd /verif; VERIF_REPO="$D" VERIF_EVIDENCE_DIR="/tmp/vp-$N-ev" ./check "$P" --tier "$T"; rc=$?
 /verif/tools/scratch_repo.sh rm "$N"
 echo "revert_test $C $P -> exit $rc"
